@@ -312,7 +312,13 @@ def c06 (ms : M) (e : Event) : List String :=
     let k := kindOf m
     let mySeq := (fget m.f 34).getD "-"
     -- callbacks about THIS message (stash drains deliver other numbers)
-    let reached := e.items.any fun i => match i with
+    -- … and only those before the expected number first moves: what is delivered after this message has been
+    -- consumed (answered with a Reject and counted) comes from the stash, possibly under the same number
+    let early := e.items.takeWhile fun i => match i with
+      | .store ["incT"] => false
+      | .store ("setT" :: _) => false
+      | _ => true
+    let reached := early.any fun i => match i with
       | .fromApp s _ => s == mySeq
       | .fromAdmin kk s => kk != "A" && s == mySeq && kk == k
       | .onLogon => k == "A"
@@ -363,8 +369,10 @@ def c06 (ms : M) (e : Event) : List String :=
         (if kinds == ["3"] && rejTag "34" then [] else ["C06.reaction_wrong{defect=field34}"])
       else []
     -- shape of Rejects that answer this message
-    let shape : List String := ws.flatMap fun (kk, _, f) =>
-      if !(kk == "3" || kk == "j") then [] else
+    -- (only what is written before this message is counted: later Rejects answer messages from the stash)
+    let shape : List String := (wires (dropOldWires prev.q early)).flatMap fun (kk, _, f) =>
+      -- (a stored Reject re-sent inside a replay, PossDupFlag=Y, answers an older message)
+      if !(kk == "3" || kk == "j") || fget f 43 == some "Y" then [] else
       match v.seq with
       | none => []
       | some n =>
